@@ -78,6 +78,10 @@ class Adapter(EnvAdapter):
                               episodes=18 if horizon <= 7 else 12, max_steps=horizon + 3,
                               probe_every=1 if horizon <= 10 else 3, probe_cap=64 if r * c <= 30 else 40, policies=POL))
         out.append(_c("r2x4a1_t3_pint", "random", 2, 4, 1, 3, 1, episodes=12, max_steps=6, policies=POL))
+        # more agents than the default, a room larger than the default, a limit above the number of tiles
+        out.append(_c("r6x7a6_t7_p5", "random", 6, 7, 6, 7, 0.5, episodes=8, max_steps=10, probe_cap=48, policies=POL))
+        out.append(_c("r13x12a2_t30_p5", "random", 13, 12, 2, 30, 0.5, episodes=4, max_steps=33, probe_every=3, policies=POL))
+        out.append(_c("r3x3a2_t20_p3", "random", 3, 3, 2, 20, 0.3, episodes=10, max_steps=23, policies=["shuttle", "legal", "sweep", "inject"]))
         seen = set()
         return [c for c in out if not (c["id"] in seen or seen.add(c["id"]))]
 
